@@ -1080,6 +1080,24 @@ def shift_analysis(rep, inst):
             if not stores:
                 rep.inconclusive(R, lab, "block moves", where=d.where(fn), detail="no block stores found (restructured algorithm?)")
                 continue
+            # blocks moved in bulk by a library algorithm over the buffer (std::copy_backward(b, b + k, b + n)): a shift in several passes - the
+            # displacement of a single store is then only a part of the whole, and the single-pass argument below does not apply
+            bulk = None
+            for n in ir.walk_expr(fn):
+                if n.get("kind") == "CallExpr":
+                    t_ = ir.sx(n)
+                    nm_ = str(t_[1][1]).split("::")[-1] if t_[0] == "call" and t_[1][0] == "ref" else ""
+                    if nm_ in ("copy", "copy_backward", "move", "move_backward", "memmove", "memcpy", "rotate", "copy_n") and \
+                            any((x_[0] == "ref" and x_[1] in aliases) or x_ == ("mem", ("this",), "m_buffer") for a_ in t_[2:] for x_ in ir.subterms(a_) if isinstance(x_, tuple)):
+                        bulk = n
+                        break
+            if bulk is not None:
+                rep.inconclusive(R, lab, "block moves", where=d.where(bulk),
+                                 detail="whole blocks are moved by `%s` and the remaining bits in another pass: the displacement of the passes composes, which the "
+                                        "single-pass analysis does not follow" % d.text(bulk)[:50])
+                for n, _ in stores:
+                    flows[id(n)] = "up" if sign > 0 else "down"          # for the typestate: a left shift may set unused bits, a right shift cannot
+                continue
             facts_global = [Lin({"div": 1}), Lin({"last": 1, "div": -1}), Lin({"r": 1})]     # div >= 0, div <= last (pos < size), r >= 0
             nonneg = ("div", "last", "r", "W", "divW")
             # which r-branch is each store in?  (r != 0 -> sub-block path, else whole-block path)
